@@ -1,16 +1,33 @@
 SPEC = dict(
     props_file="C08",
-    legs=[dict(family="countmin", oracles=["prop_ok"], profiles=["debug", "release"], n_quick=160, n_thorough=2000)],
+    legs=[dict(family="countmin", oracles=["prop_ok", "prop_layout"], profiles=["debug", "release"], n_quick=160, n_thorough=2000,
+               panic_is_violation=True)],
     level_text="Theorems (Props/C08.v) over an executable model of countmin/sketch.rs for an arbitrary bucket function: "
                "exact table, exact total, truth <= estimate <= total for every item and every stream, merge adds histories, "
-               "halve/decay keep the one-sided bound. The model is tied to the crate by running both on the same generated "
-               "histories (8 counter types, debug+release) and comparing estimates, totals and serialized tables.",
+               "halve/decay keep the one-sided bound, also for merges interleaved with halve/decay (any program: merge tree "
+               "over updated / halved / decayed / round-tripped operands: scaled truth <= estimate <= total). The model is tied "
+               "to the crate by running both on the same generated histories (8 counter types, i64 items and multi-write items: "
+               "&str, tuples, u128, byte slices; debug+release) and comparing estimates, bounds, totals and serialized tables; "
+               "the exact-frequency oracle and the exact-table oracle (independent layout decoder on every serialized image, exact "
+               "minimum for every estimate) judge the crate's observations; any panic is a violation (the generator makes valid calls only).",
     level_note="Trusted: Coq kernel, translator (constants), harness/driver, pyref hashes (checked in C16). The (epsilon,delta) "
-               "tail claim is distributional: no theorem. Monotonicity of the float decay function is checked per run, not proved.",
-    technique="Coq proof by induction over histories (invariants Rep/LB) + differential correspondence model vs crate",
-    trusted=["bucket indices are supplied by tools/pyref.py (reference MurmurHash3, cross-checked in C16)",
-             "decay: the theorem is for any monotone scaling g with g 0 = 0 and g c <= c; that the crate's "
-             "c -> trunc(fl(c)*d) is such a g is checked on every run by the oracle, not proved",
+               "tail claim is distributional: no theorem. The crate's decay is c -> min(trunc(c as f64 * d), c) (clamp added by fix "
+               "75cef6f): '0 -> 0' and 'never grows' are proved for any float part; monotonicity of the float part "
+               "c -> trunc(c as f64 * d) is an assumption, checked by the oracles on every run (Corr/CountMin.v mono_on: op 6 of "
+               "prop_from / layout_from, on every counter value and total the oracle holds at that moment). "
+               "c08_halve_decay_one_sided and c08_programs_one_sided assume that the sum of ALL weights ever fed in (sum_w / "
+               "pweight, merged partners included) fits the counter type - stronger than 'the final total fits' when halve/decay "
+               "shrank the total in between. Negative weights of the signed counter types are outside the model (counters are "
+               "naturals); compute_seed_hash's assert (seed hash 0) is modelled in cm_new only: deserialize_with_seed with a seed "
+               "whose hash is 0 panics on its argument (not on the bytes) and is outside the model (generators avoid such seeds).",
+    technique="Coq proof by induction over histories / programs (invariants Rep/LB) + differential correspondence model vs crate",
+    trusted=["bucket indices are supplied by tools/pyref.py (reference MurmurHash3 over the std Hash byte stream of the item, cross-checked in C16)",
+             "decay: the theorems are for any monotone scaling g with g 0 = 0 and g c <= c; for the crate's clamped decay the last two "
+             "are proved (c08_decay_is_admissible_scaling, c08_decay_never_grows); monotonicity of c -> trunc(fl(c)*d) is checked on "
+             "every run by the oracles on the values they see, not proved",
              "the (epsilon, delta) tail claim is distributional and has no theorem (DESIGN.md section 9)"],
-    assumptions=["non-negative weights whose total fits the counter type (the property's own precondition)"],
+    assumptions=["non-negative weights (negative weights of signed counter types are outside the model)",
+                 "the sum of all weights fed into a sketch, merged partners included, fits the counter type (the property's own "
+                 "precondition, in the strong form: before any halving/decay)",
+                 "seeds whose 16-bit seed hash is 0 are rejected by the constructor (documented panic)"],
 )
